@@ -95,11 +95,70 @@ def source_bytes(name: str) -> bytes:
         elif name == "rich-core":
             files, aux = richdoc.core_files()
             b = H.make_pdx(files, aux)
+        elif name.startswith("twin:"):
+            b = twin_of(source_bytes(name[5:]))
         else:
             _, files, aux = features()[name]
             b = H.make_pdx(files, aux)
         _SRC_CACHE[name] = b
     return b
+
+
+def twin_of(pdx: bytes) -> bytes:
+    """The same database with every DIAG-LAYER-CONTAINER renamed (<name>_twin): layers of equal
+    short names then live in differently named containers of two databases."""
+    import re
+    members = H.pdx_members(pdx)
+    names = set()
+    for n, c in members.items():
+        if H.is_odx_name(n):
+            for m in re.finditer(rb"<DIAG-LAYER-CONTAINER\b[^>]*>\s*<SHORT-NAME>([^<]+)</SHORT-NAME>", c):
+                names.add(m.group(1))
+    out: Dict[str, bytes] = {}
+    for n, c in members.items():
+        if H.is_odx_name(n):
+            for nm in names:
+                c = re.sub(rb"(<DIAG-LAYER-CONTAINER\b[^>]*>\s*<SHORT-NAME>)" + re.escape(nm) +
+                           rb"(</SHORT-NAME>)", rb"\g<1>" + nm + rb"_twin\g<2>", c)
+                c = re.sub(rb'DOCREF="' + re.escape(nm) + rb'"(\s+DOCTYPE="CONTAINER")',
+                           rb'DOCREF="' + nm + rb'_twin"\g<1>', c)
+                c = re.sub(rb'(DOCTYPE="CONTAINER"\s+)DOCREF="' + re.escape(nm) + rb'"',
+                           rb'\g<1>DOCREF="' + nm + rb'_twin"', c)
+        out[n] = c
+    import io
+    import zipfile
+    b = io.BytesIO()
+    with zipfile.ZipFile(b, "w", compression=zipfile.ZIP_DEFLATED) as z:
+        for n, c in out.items():
+            z.writestr(n, c)
+    return b.getvalue()
+
+
+def task_history(name: str, col: common.Collector) -> None:
+    """What is written must depend on the database only, not on what the process wrote before:
+    the full round trip oracle on X, then on its twin (same layers, containers renamed), then
+    on X again - all in this one process."""
+    scratch = common.Collector()
+    task_roundtrip(name, scratch)
+    if scratch.inconclusive:
+        col.fail_inconclusive(f"history leg: {scratch.inconclusive[0]}")
+        return
+    for nm in ("twin:" + name, name):
+        sub = common.Collector()
+        task_roundtrip(nm, sub)
+        if sub.inconclusive:
+            col.fail_inconclusive(f"history leg: {sub.inconclusive[0]}")
+            return
+        col.ev(sub.evaluations)
+        col.count("history-roundtrips")
+        col.nontrivial(("history", nm))
+        for sig, ent in sub.violations.items():
+            if sig in scratch.violations:
+                continue  # already reported by the plain round trip of this source
+            d = dict(ent["witnesses"][0]) if ent["witnesses"] else {}
+            d.pop("sig", None)
+            d["after_writing"] = name if nm.startswith("twin:") else "twin:" + name
+            _viol(col, ("written-database-depends-on-history",) + tuple(sig)[:2], d)
 
 
 def _viol(col: common.Collector, sig: Sequence[Any], detail: Dict[str, Any]) -> None:
@@ -774,6 +833,9 @@ def run(tier: str, col: common.Collector) -> None:
     common.pmap(task_roundtrip, names, col, timeout=300)
     lap("roundtrips")
     common.pmap(task_cache_selfcheck, ["somersault", "rich-core"], col, timeout=300)
+    common.pmap(task_history, ["somersault", "rich-core"], col, timeout=600)
+    if not col.counters.get("history-roundtrips"):
+        col.fail_inconclusive("the write-history leg did not run")
     lap("cache_selfcheck")
     if not col.counters.get("cache_selfcheck_ok"):
         col.fail_inconclusive("template cache self check did not run")
